@@ -703,6 +703,7 @@ func stateRules(c *Ctx) {
 		smallTableByByte(c, g, short1)
 		uncheckedErrorAssert(c, g, short1)
 		scratchReturned(c, g, short1)
+		doubleCheckedLocking(c, g, short1)
 		indexSummed(c, g, short1)
 	}
 	// parsers that link features to a local Sequence (shared by C01, C14, C15)
@@ -4044,6 +4045,62 @@ func memoAlias(c *Ctx, g *ssa.Function, short1 string) {
 			c.bad("STATE", "memo-alias:"+short1+"->"+gl.Name(), ret.Pos(), fmt.Sprintf("%s returns the list it keeps in package-level %s as it is: every caller that asks for the same key gets the same backing array, so a caller that edits its result (sorts it, filters it in place) changes what later callers receive", short1, gl.Name()))
 		}
 	})
+	// the other half: the very list that is put into the memo is also what this call hands back (later hits may
+	// well get a copy): the first caller holds the remembered list
+	handedBack := func(v ssa.Value) ssa.Instruction {
+		if v.Referrers() == nil {
+			return nil
+		}
+		for _, r := range *v.Referrers() {
+			switch z := r.(type) {
+			case *ssa.Return:
+				for _, res := range z.Results {
+					if res == v {
+						return z
+					}
+				}
+			case *ssa.Store:
+				// a result spilled to its cell because the function defers something
+				if al, isAl := z.Addr.(*ssa.Alloc); isAl && z.Val == v && al.Referrers() != nil {
+					for _, rr := range *al.Referrers() {
+						if ld, isLd := rr.(*ssa.UnOp); isLd && ld.Referrers() != nil {
+							for _, r3 := range *ld.Referrers() {
+								if ret, isRet := r3.(*ssa.Return); isRet {
+									return ret
+								}
+							}
+						}
+					}
+				}
+			}
+		}
+		return nil
+	}
+	eachInstr(g, func(i ssa.Instruction) {
+		var val ssa.Value
+		var gl *ssa.Global
+		switch x := i.(type) {
+		case *ssa.MapUpdate:
+			if gl = globalRoot(x.Map); gl != nil {
+				val = unwrapIface(x.Value)
+			}
+		case *ssa.Call:
+			if n := calleeName(x); n == "(*sync.Map).Store" && len(x.Call.Args) == 3 {
+				if gl = globalRoot(x.Call.Args[0]); gl != nil {
+					val = unwrapIface(x.Call.Args[2])
+				}
+			}
+		}
+		if val == nil || gl == nil || !mutableContainer(val.Type()) {
+			return
+		}
+		if _, isK := val.(*ssa.Const); isK {
+			return
+		}
+		if at := handedBack(val); at != nil {
+			c.bad("STATE", "memo-alias:"+short1+"->"+gl.Name()+":stored", i.Pos(), fmt.Sprintf("%s puts a list into package-level %s and hands the very same list back to its caller: a caller that edits its result (sorts it, overwrites an element) changes what every later call with the same arguments is given", short1, gl.Name()))
+		}
+	})
 }
 
 // shadowedError: a return hands back an error VARIABLE that is provably nil there (the SSA value is the
@@ -4588,6 +4645,73 @@ func scratchReturned(c *Ctx, g *ssa.Function, short1 string) {
 			}
 			c.bad("STATE", "scratch-returned:"+short1+"->"+gl.Name(), r.Pos(), fmt.Sprintf("%s fills package-level %s with data computed from its arguments and returns that very container: any lock it holds while filling is gone when it returns, so its caller reads memory that the next call writes again (two overlapping calls get each other's numbers)", short1, gl.Name()))
 			return
+		}
+	}
+}
+
+// doubleCheckedLocking: g looks at a package-level variable, takes a mutex only when it finds it unset, and
+// sets it under that mutex: the first look is not covered by the lock, so it runs beside the store of another
+// goroutine -- a data race; a reader may see the variable set while what it points to is not yet visible.
+func doubleCheckedLocking(c *Ctx, g *ssa.Function, short1 string) {
+	type lockAt struct {
+		call ssa.Instruction
+		idx  int
+	}
+	var locks []lockAt
+	for _, b := range g.Blocks {
+		for k, in := range b.Instrs {
+			if cl, ok := in.(*ssa.Call); ok {
+				switch calleeName(cl) {
+				case "(*sync.Mutex).Lock", "(*sync.RWMutex).Lock", "(*sync.RWMutex).RLock":
+					locks = append(locks, lockAt{cl, k})
+				}
+			}
+		}
+	}
+	if len(locks) == 0 {
+		return
+	}
+	before := func(b *ssa.BasicBlock, k int, l lockAt) bool { // instruction k of b runs before the lock is taken
+		lb := l.call.Block()
+		return (b == lb && k < l.idx) || (b != lb && b.Dominates(lb))
+	}
+	after := func(b *ssa.BasicBlock, k int, l lockAt) bool {
+		lb := l.call.Block()
+		return (b == lb && k > l.idx) || (b != lb && lb.Dominates(b))
+	}
+	for _, l := range locks {
+		stored := map[*ssa.Global]ssa.Instruction{}
+		for _, b := range g.Blocks {
+			for k, in := range b.Instrs {
+				if st, ok := in.(*ssa.Store); ok && after(b, k, l) {
+					if gl, isG := st.Addr.(*ssa.Global); isG && gl.Pkg != nil && strings.HasPrefix(gl.Pkg.Pkg.Path(), modPath) {
+						stored[gl] = st
+					}
+				}
+			}
+		}
+		for _, b := range g.Blocks {
+			for k, in := range b.Instrs {
+				ld, ok := in.(*ssa.UnOp)
+				if !ok || ld.Op != token.MUL || !before(b, k, l) {
+					continue
+				}
+				gl, isG := ld.X.(*ssa.Global)
+				if !isG || stored[gl] == nil {
+					continue
+				}
+				covered := false
+				for _, l2 := range locks {
+					if l2.call != l.call && after(b, k, l2) {
+						covered = true
+					}
+				}
+				if covered {
+					continue
+				}
+				c.bad("STATE", "double-checked-locking:"+short1+"->"+gl.Name(), ld.Pos(), fmt.Sprintf("%s looks at package-level %s before it takes the mutex (at %s) under which it sets it: the first look is not covered by the lock and runs beside another goroutine's store -- a data race; callers that arrive together may read a value that is set but whose content is not yet visible to them", short1, gl.Name(), c.W.pos(l.call.Pos())))
+				return
+			}
 		}
 	}
 }
